@@ -538,3 +538,58 @@ def _bounded_by_height(g, call, o, _nofallback=False):
                 if tuple(g.strip_casts(q)) in vals and is_height:
                     return True
     return False
+
+
+def r9_clip_consulted_under_its_flag(ck, P, rid='C03-R9'):
+    """T-GRD, interprocedural one level: wherever the library reads an image's clip region (hands it to a callee that does not write it),
+    the same image's have_clip_region has been tested - in that function, or at every call site of it.  The region's contents are stale
+    once the clip has been reset, and client_clip / clip_sources say something else (whether the clip applies to the image as a source)."""
+    from .threads import param_write_summaries
+    R = ck.rule(rid, 'every place that reads image_common.clip_region (passes it to a callee that does not write through that parameter) is guarded by a test of the same image\'s have_clip_region, either in the function itself or at each of its call sites; client_clip and clip_sources are no substitute', floor=4)
+    W = param_write_summaries(P)
+    callers = P.callers()
+    def flag_test(f, blockid, root):
+        for t, s in f.guard_edges(blockid):
+            if not t.a:
+                continue
+            seen = set(); work = [t.a[0]]
+            while work:
+                o = work.pop(); y = f.v(o)
+                if y is None or y.i in seen:
+                    continue
+                seen.add(y.i)
+                if y.op == 'load':
+                    if f.last_field(f.path(y.a[0])) == 'image_common.have_clip_region' and f.root(f.path(y.a[0])) == root:
+                        return True
+                    continue
+                if y.op in ('call', 'phi'):
+                    continue
+                work.extend(q for q in y.a if q and q[0] == 'v')
+        return False
+    for f in P.functions():
+        for c in f.calls():
+            g = P.resolve(f, c.callee) if c.callee else None
+            for k, a in enumerate(c.a):
+                if not (a and a[0] in ('v', 'a') and f.last_field(f.path(a)) == 'image_common.clip_region'):
+                    continue
+                if g is None or k in W.get(g, set()):
+                    continue                      # maintenance: the callee (re)writes the region
+                if any(any(r[0] == 'arg' and r[1] == k for r in common.roots(g, fc.a[0])) for fc in g.calls('free')):
+                    continue                      # maintenance: the callee releases the region's storage (fini)
+                ck.saw(f)
+                root = f.root(f.path(a))
+                where = '%s: clip handed to %s at %s' % (f.name, c.callee, c.loc())
+                if flag_test(f, c.bb.id, root):
+                    ck.ok(R, where, 'guarded in the function'); continue
+                ok = False
+                if root[0] == 'arg' and not f.exported:
+                    sites = [(h, cs) for h in callers.get(f, ()) for cs in h.calls(f.name)]
+                    ok = bool(sites)
+                    for h, cs in sites:
+                        ra = cs.a[root[1]] if root[1] < len(cs.a) else None
+                        hr = h.root(h.path(ra)) if ra is not None else None
+                        if hr is None or not flag_test(h, cs.bb.id, hr):
+                            ok = False
+                if ok:
+                    ck.ok(R, where, 'guarded at every call site'); continue
+                ck.violation(R, f.name, 'clip region read at %s' % c.loc(), '%s hands the image\'s clip region to %s although no test of that image\'s have_clip_region guards the read (neither here nor at every caller): after the clip has been removed the stale rectangles still restrict the drawing, and a clip that was set without client_clip is ignored' % (f.name, c.callee), c.loc())
